@@ -31,6 +31,13 @@ def ensure_engine():
         if r.returncode != 0:
             print(r.stdout)
             sys.exit(2)
+    instr = os.path.join(ROOT, "bin", "instr")
+    isrc = os.path.join(ROOT, "tools", "instr")
+    if not os.path.exists(instr) or os.path.getmtime(instr) < os.path.getmtime(os.path.join(isrc, "main.go")):
+        r = sh(["go", "build", "-o", instr, "."], cwd=isrc)
+        if r.returncode != 0:
+            print(r.stdout)
+            sys.exit(2)
 
 
 import threading
@@ -87,14 +94,47 @@ def run_engine(run, tier, seed, workdir, idx):
     return {"run": run, "rc": r.returncode, "log": r.stdout[-4000:], "res": res, "wall": time.time() - t0}
 
 
-def native_replay(pkg, cases, timeout=300, tags=None):
+def sched_for_replay(events, preemptions):
+    """schedule events of an engine path -> (events the native sequencer can enforce, source positions to instrument).
+    The engine offers a switch before every sync/atomic operation of /repo code and records each as
+    `thread|sync@file:line:col`; natively only the positions at which THIS path actually switched
+    are turned into schedule points (source overlay), so only those events are kept."""
+    pos = set()
+    for p in preemptions or []:
+        if p.startswith("sync@"):
+            pos.add(":".join(p[len("sync@"):].split(":")[:3]))
+    keep = []
+    for e in events or []:
+        th, _, pt = e.partition("|")
+        if pt.startswith("sync@") and pt[len("sync@"):].rstrip("!") not in pos:
+            continue
+        keep.append(e)
+    return keep, sorted(pos)
+
+
+def make_overlay(positions, d):
+    """instrument /repo copies with verifSched calls at the given positions; returns the overlay file"""
+    r = sh([os.path.join(ROOT, "bin", "instr"), "-repo", "/repo", "-out", d] + list(positions), cwd=ROOT)
+    if r.returncode != 0:
+        return None
+    return os.path.join(d, "overlay.json")
+
+
+def native_replay(pkg, cases, timeout=300, tags=None, overlay_positions=None, keep_dir=None):
     """run cases natively in the harness package; returns list of event lists (one per case) and raw output"""
     d = tempfile.mkdtemp(prefix="vrt_", dir=os.path.join(ROOT, ".work"))
     inp, ev = os.path.join(d, "in.json"), os.path.join(d, "ev.txt")
     json.dump({"cases": cases}, open(inp, "w"))
     env = dict(ENV, VRT_INPUTS=inp, VRT_EVENTS=ev)
+    ov = []
+    if overlay_positions:
+        od = keep_dir or d
+        os.makedirs(od, exist_ok=True)
+        f = make_overlay(overlay_positions, od)
+        if f:
+            ov = ["-overlay", f]
     try:
-        r = subprocess.run(["timeout", str(timeout), "go", "test", "-vet=off", "-count=1", "-run", "^TestReplay$"] + (["-tags", tags] if tags else []) +
+        r = subprocess.run(["timeout", str(timeout), "go", "test", "-vet=off", "-count=1", "-run", "^TestReplay$"] + ov + (["-tags", tags] if tags else []) +
                            ["-timeout", "%ds" % (timeout - 5), "./" + pkg.split("/", 1)[1]],
                            cwd=HARNESS, env=env, stdout=subprocess.PIPE, stderr=subprocess.STDOUT, text=True)
         out = r.stdout
@@ -156,6 +196,7 @@ def strace_replay(pkg, case, engine_trace, timeout=300):
     inject = []
     kinds = {"fsync": "fsync", "fsync-dir": "fsync", "pwrite": "pwrite64", "fallocate": "fallocate", "unlink": "unlinkat", "rename": "renameat"}
     counts = {}
+    wanted = []  # (syscall, n): the n-th call of that kind that the engine's trace shows must fail
     for e in engine_trace or []:
         if e.endswith("injected FAILED") and e.split(" ", 1)[0] not in kinds:
             shutil.rmtree(d, ignore_errors=True)
@@ -167,12 +208,36 @@ def strace_replay(pkg, case, engine_trace, timeout=300):
             continue
         counts[sc] = counts.get(sc, 0) + 1
         if e.endswith("injected FAILED"):
-            inject.append("-e")
-            inject.append("inject=%s:error=EIO:when=%d" % (sc, counts[sc]))
-    cmd = ["timeout", str(timeout), "strace", "-f", "-y", "-qq", "-o", log,
-           "-e", "trace=openat,fallocate,pwrite64,fsync,fdatasync,unlinkat,unlink,rename,renameat,renameat2,newfstatat"] + inject + \
-          [binp, "-test.run", "^TestReplay$", "-test.timeout", "%ds" % (timeout - 10)]
+            wanted.append((sc, counts[sc]))
+    base = ["timeout", str(timeout), "strace", "-f", "-y", "-qq", "-o", log,
+            "-e", "trace=openat,fallocate,pwrite64,fsync,fdatasync,unlinkat,unlink,rename,renameat,renameat2,newfstatat"]
+    tail = [binp, "-test.run", "^TestReplay$", "-test.timeout", "%ds" % (timeout - 10)]
     env = dict(ENV, VRT_INPUTS=inp, VRT_EVENTS=os.path.join(d, "ev.txt"), VRT_TEMPDIR=tdir)
+    for sc, n in wanted:
+        # strace counts `when=` over every call of that kind made by the thread, including the
+        # ones the comparison leaves out (bbolt's own I/O on its .db file): a dry run without
+        # injection tells which ordinal the n-th call that counts has among all of them
+        when = n
+        if any(".db" in e for e in engine_trace or []) or case.get("fn") in ("HarnessMetaInit", "HarnessStableBolt", "HarnessMetaRecord"):
+            subprocess.run(base + tail, cwd=HARNESS, env=env, stdout=subprocess.PIPE, stderr=subprocess.STDOUT, text=True)
+            per_tid, seen = {}, 0
+            if os.path.exists(log):
+                for line in open(log):
+                    mm = re.match(r"^(\d+)\s+(\w+)\((.*)\)\s+= (-?\d+)", line.strip())
+                    if not mm or mm.group(2) != sc:
+                        continue
+                    tid, args = mm.group(1), mm.group(3)
+                    per_tid[tid] = per_tid.get(tid, 0) + 1
+                    if tdir in args and (".db" not in args or sc.startswith("rename")):
+                        seen += 1
+                        if seen == n:
+                            when = per_tid[tid]
+                            break
+                os.remove(log)
+            shutil.rmtree(tdir, ignore_errors=True)
+            os.makedirs(tdir, exist_ok=True)
+        inject += ["-e", "inject=%s:error=EIO:when=%d" % (sc, when)]
+    cmd = base + inject + tail
     rr = subprocess.run(cmd, cwd=HARNESS, env=env, stdout=subprocess.PIPE, stderr=subprocess.STDOUT, text=True)
     out = []
     dbdirty = set()
@@ -348,7 +413,8 @@ def main():
     for (pkg, fn, vid, ktag), (run, v) in uniq.items():
         tags = [t for t in ktag.split("+") if t]
         hit = [t for t in tags if t in known_here]
-        case = {"fn": fn, "inputs": v.get("inputs") or {}, "params": run.get("params", {}), "sched": v.get("sched_events") or []}
+        sched_ev, sync_pos = sched_for_replay(v.get("sched_events"), v.get("sched"))
+        case = {"fn": fn, "inputs": v.get("inputs") or {}, "params": run.get("params", {}), "sched": sched_ev}
         if v["kind"] == "static":
             evs, raw, ev = [], "", []
         elif run.get("trace"):
@@ -363,7 +429,7 @@ def main():
         else:
             tries = 4 if run.get("sched") else 1
             for _ in range(tries):
-                evs, raw = native_replay(pkg, [case], tags=run.get("tags"))
+                evs, raw = native_replay(pkg, [case], tags=run.get("tags"), overlay_positions=sync_pos)
                 ev = evs[0] if evs else []
                 if v["kind"] == "assert" and (("A:%s:0" % vid) in ev or "fatal error:" in raw):
                     break
@@ -395,9 +461,14 @@ def main():
             os.makedirs(rdir, exist_ok=True)
             json.dump({"cases": [case]}, open(os.path.join(rdir, "inputs.json"), "w"), indent=1)
             json.dump(rec, open(os.path.join(rdir, "violation.json"), "w"), indent=1)
+            ovl = ""
+            if sync_pos:
+                # the schedule switches threads before sync/atomic operations: the replay instruments those places
+                ovl = "%s -repo /repo -out %s %s && " % (os.path.join(ROOT, "bin", "instr"), rdir, " ".join(sync_pos))
             open(os.path.join(rdir, "replay.sh"), "w").write(
-                "#!/bin/sh\ncd %s && GOFLAGS=-mod=mod GOPROXY=off GOSUMDB=off VRT_INPUTS=%s timeout 300 go test -vet=off -count=1 %s-run '^TestReplay$' -v ./%s\n"
-                % (HARNESS, os.path.join(rdir, "inputs.json"), ("-tags %s " % run["tags"]) if run.get("tags") else "", pkg.split("/", 1)[1]))
+                "#!/bin/sh\n%scd %s && GOFLAGS=-mod=mod GOPROXY=off GOSUMDB=off VRT_INPUTS=%s timeout 300 go test -vet=off -count=1 %s%s-run '^TestReplay$' -v ./%s\n"
+                % (ovl, HARNESS, os.path.join(rdir, "inputs.json"), ("-overlay %s " % os.path.join(rdir, "overlay.json")) if sync_pos else "",
+                   ("-tags %s " % run["tags"]) if run.get("tags") else "", pkg.split("/", 1)[1]))
             confirmed.append((rec, rdir))
         else:
             rec["native_output_tail"] = raw[-1500:]
@@ -441,7 +512,7 @@ def main():
         groups.setdefault(run["pkg"], []).append((run, s))
     for pkg, lst in groups.items():
         lst = lst[: chk.get("crossval_max", 8)]
-        cases = [{"fn": run["fn"], "inputs": s["inputs"], "params": run.get("params", {}), "sched": s.get("sched_events") or []} for run, s in lst]
+        cases = [{"fn": run["fn"], "inputs": s["inputs"], "params": run.get("params", {}), "sched": sched_for_replay(s.get("sched_events"), None)[0]} for run, s in lst]
         evs, raw = native_replay(pkg, cases, tags=lst[0][0].get("tags"))
         for i, (run, s) in enumerate(lst):
             nat = comparable(evs[i]) if i < len(evs) else None
